@@ -323,6 +323,64 @@ func canonFlat(l []interface{}) (string, string) {
 	return listStr(out), inv
 }
 
+// specFlatOwn is the C19 statement for the flat tracer, computed from the executions themselves and not from the model: every Aspect
+// execution that is not under a dropped precompile call appears exactly once, with its own Aspect id, gas, gas used and output.
+func specFlatOwn(root *tFrame, incl bool, l []interface{}) string {
+	want := map[string]int{}
+	var walk func(f *tFrame, underFrame, top bool)
+	walk = func(f *tFrame, underFrame, top bool) {
+		if !incl && !top && underFrame && (f.typ == vm.CALL || f.typ == vm.STATICCALL) && len(f.to.Bytes()) == 20 && isPrecompileAddr(f.to) {
+			return
+		}
+		for _, a := range append(append([]*tAspect{}, f.pre...), f.post...) {
+			res := "noresult"
+			if a.err == nil || errors.Is(a.err, vm.ErrExecutionReverted) {
+				res = hexU64(a.gas-a.gasLeft) + "/" + hexBytes(a.ret)
+			}
+			want[fmt.Sprintf("%s:%s:%s:%s", strings.ToLower(jpNames[a.jp]), hexAddr(a.aspect), hexU64(a.gas), res)]++
+			for _, c := range a.calls {
+				walk(c, false, false)
+			}
+		}
+		for _, c := range f.calls {
+			walk(c, true, false)
+		}
+	}
+	walk(root, false, true)
+	for _, x := range l {
+		m := x.(map[string]interface{})
+		act, _ := m["action"].(map[string]interface{})
+		if _, isAspect := act["aspect"]; !isAspect {
+			continue
+		}
+		res := "noresult"
+		if r, _ := m["result"].(map[string]interface{}); r != nil {
+			res = jHexNat(r["gasUsed"]) + "/" + jBytes(r["output"])
+		}
+		k := fmt.Sprintf("%v:%s:%s:%s", act["callType"], jHexNat(act["aspect"]), jHexNat(act["gas"]), res)
+		want[k]--
+		if want[k] < 0 {
+			return "aspect_entry_without_execution_" + strings.ReplaceAll(k, ":", "_")
+		}
+	}
+	for k, n := range want {
+		if n > 0 {
+			return "aspect_execution_not_emitted_" + strings.ReplaceAll(k, ":", "_")
+		}
+	}
+	return "ok"
+}
+
+func isPrecompileAddr(a common.Address) bool {
+	b := a.Bytes()
+	for _, x := range b[:19] {
+		if x != 0 {
+			return false
+		}
+	}
+	return b[19] >= 1 && b[19] <= 9
+}
+
 func countFrames(f *tFrame) (int, int) {
 	fr, as := 1, len(f.pre)+len(f.post)
 	for _, a := range append(append([]*tAspect{}, f.pre...), f.post...) {
@@ -360,7 +418,7 @@ func driveCallTracer(seed uint64, n int, size int, em *Emitter) {
 			}
 			al, _ := tr.(atypes.AspectLogger)
 			s := &tSink{tr: tr, al: al, em: em, env: env.evm}
-			impl, inv := "", "ok"
+			impl, inv, own := "", "ok", "ok"
 			func() {
 				defer func() {
 					if x := recover(); x != nil {
@@ -381,6 +439,7 @@ func driveCallTracer(seed uint64, n int, size int, em *Emitter) {
 					var l []interface{}
 					json.Unmarshal(raw, &l)
 					impl, inv = canonFlat(l)
+					own = specFlatOwn(root, incl, l)
 				} else {
 					var m map[string]interface{}
 					json.Unmarshal(raw, &m)
@@ -391,6 +450,7 @@ func driveCallTracer(seed uint64, n int, size int, em *Emitter) {
 			if flat {
 				em.Op("C19,C03", "Q ctflat", impl)
 				em.Op("C19", "S ctflatinv", inv)
+				em.Op("C19", "S ctflatown", own)
 			} else {
 				em.Op("C19,C03,C18", "Q ctnested", impl)
 				v := "ok"
